@@ -101,6 +101,18 @@ fn programs() -> Vec<(Program, bool, bool)> {
     v.push((mk("delete(k)||delete(k)||get(k)", vec![put(1, 2)], vec![vec![del(1)], vec![del(1)], vec![get(1)]], reput.clone()), true, true));
     v.push((mk("delete(k)||put(k)", vec![put(1, 2)], vec![vec![del(1)], vec![put(1, 3)]], reput.clone()), false, true));
     v.push((mk("delete(k)||put(k);get(k)/ttl", vec![put_ttl(1, 2, 5000)], vec![vec![del(1)], vec![put(1, 3), get(1)]], reput.clone()), false, true));
+    // the key has expired but has not been swept: readers cannot see it, the delete must still mark it, or a
+    // TTL-only upsert that re-arms the expiry brings the deleted value back before the Delete command runs
+    let ups_ttl = |k: K, ttl: u64| Op::Upsert { k, value: false, w: None, ttl_ms: Some(ttl), remove_ttl: false };
+    let mut p = mk("expired-unswept: delete(k);upsert(k,ttl);get(k)", vec![put_ttl(1, 2, 1000), adv(3000)], vec![vec![del(1), ups_ttl(1, 5000), get(1)]], vec![]);
+    p.tolerate_value_missing = true;
+    v.push((p, false, false));
+    let mut p = mk("expired-unswept: delete(k);get(k)||upsert(k,ttl);get(k)", vec![put_ttl(1, 2, 1000), adv(3000)], vec![vec![del(1), get(1)], vec![ups_ttl(1, 5000), get(1)]], vec![]);
+    p.tolerate_value_missing = true;
+    v.push((p, false, false));
+    let mut p = mk("soft-deleted: delete(k);upsert(k,ttl);get_ref(k)", vec![put_ttl(1, 2, 5000)], vec![vec![del(1), ups_ttl(1, 9000), Op::Read { k: 1, variant: ReadVariant::GetRef }]], vec![]);
+    p.tolerate_value_missing = true;
+    v.push((p, false, false));
     v.push((mk("delete(k);await;put(k);get(k)||get(k)", vec![put(1, 2)], vec![vec![del(1), Op::Await { call: 0 }, put(1, 3), Op::Await { call: 2 }, get(1)], vec![get(1)]], vec![]), false, false));
     v
 }
